@@ -120,10 +120,14 @@ impl Date {
     #[inline]
     pub fn add_days(self, days: f64) -> Result<Date> {
         let timestamp = self.0.add_days(days)?;
-        Ok(Date(Timestamp::try_from_usecs(
-            ((timestamp.usecs() as f64) / USECONDS_PER_SECOND as f64).round() as i64
-                * USECONDS_PER_SECOND,
-        )?))
+        // Round to the nearest second (halves away from zero) in integer arithmetic:
+        // an `i64` microsecond count beyond 2^53 is not exact as `f64`.
+        let usecs = timestamp.usecs();
+        let mut secs = usecs / USECONDS_PER_SECOND;
+        if (usecs % USECONDS_PER_SECOND).abs() * 2 >= USECONDS_PER_SECOND {
+            secs += usecs.signum();
+        }
+        Ok(Date(Timestamp::try_from_usecs(secs * USECONDS_PER_SECOND)?))
     }
 
     /// `Date` subtracts `Date`
